@@ -118,11 +118,36 @@ def formulas(repo):
     if len(hits) != 1:
         raise TranslationError('%s: %d assignments to keep_weight' % (path, len(hits)))
     out['kwPrf'] = (tr(hits[0].value), 'C06.kwPrfProg', 'WEx')
+    # qpq.py: the quotient of a hopeful candidate and the contribution given on election
+    path = os.path.join(repo, 'droop', 'rules', 'qpq.py')
+    tree = ast.parse(open(path).read(), path)
+
+    def trq(n):
+        p = _path(n)
+        if p in ('c.vote',): return '.vote'
+        if p in ('c.tc',): return '.tc'
+        if p == 'V1': return '.one'
+        if p == 'high_candidate.quotient': return '.quotient'
+        if isinstance(n, ast.BinOp) and isinstance(n.op, ast.Add):
+            return '(.plus %s %s)' % (trq(n.left), trq(n.right))
+        if isinstance(n, ast.BinOp) and isinstance(n.op, ast.Div):
+            return '(.over %s %s)' % (trq(n.left), trq(n.right))
+        raise TranslationError('not a QPQ expression of the accepted form: %s' % ast.dump(n)[:140])
+    qs = [n for n in ast.walk(tree) if isinstance(n, ast.Assign) and len(n.targets) == 1 and _path(n.targets[0]) == 'c.quotient'
+          and not (_path(n.value) == 'V0')]
+    if len(qs) != 1:
+        raise TranslationError('%s: %d computed assignments to c.quotient' % (path, len(qs)))
+    out['qpqQuotient'] = (trq(qs[0].value), 'QPQ.quotientProg', 'QPQ.QxEx')
+    nw = [n for n in ast.walk(tree) if isinstance(n, ast.Assign) and len(n.targets) == 1 and isinstance(n.targets[0], ast.Name)
+          and n.targets[0].id == 'new_weight']
+    if len(nw) != 1:
+        raise TranslationError('%s: %d assignments to new_weight' % (path, len(nw)))
+    out['qpqNewWeight'] = (trq(nw[0].value), 'QPQ.newWeightProg', 'QPQ.QxEx')
     return out
 
 
 def lean_file(fs):
-    lines = ['import Props.C06Prog', 'namespace Gen', 'open Droop Droop.C06', '']
+    lines = ['import Props.C06Prog', 'import Props.QpqProg', 'namespace Gen', 'open Droop Droop.C06', '']
     for name, v in sorted(fs.items()):
         text, target = v[0], v[1]
         lines.append('def %s : %s := %s' % (name, v[2] if len(v) > 2 else 'WEx', text))
